@@ -198,6 +198,7 @@ def run(chk):
     chk.rule("R8", "no operator is registered twice in one store for the same signature (later silently wins / assert)")
     chk.rule("R9", "optional slots of AST nodes (`X | None`) are dereferenced / passed to non-optional parameters only under an `is not None` test")
     chk.rule("R10", "SQL implementations that use a Const parameter as a Python value (autoescape pattern, Python-level test, int()) are only reached with Python values")
+    chk.rule("R11", "the expression dispatchers compile every argument of a function call (a zip with a per-overload parameter list must use the matched, per-argument signature)")
     chk.rule("A12", "no ordered output in backend/ or pipe/ depends on the iteration order of a set")
 
     chk.floor("registry", "registrations", len(regs), 240)
@@ -499,6 +500,9 @@ def run(chk):
     # ---- R10 python-valued const parameters ---------------------------------------------
     _python_valued_params(chk, m)
 
+    # ---- R11 every argument is compiled ---------------------------------------------------
+    _all_args_compiled(chk)
+
     # ---- A12 determinism -------------------------------------------------------
     determinism.run_rule(chk, "A12", scope=("backend.", "pipe.", "tree.verbs", "tree.ast"))
 
@@ -563,3 +567,43 @@ def _python_valued_params(chk, m):
            f"SqlImpl.compile_col_expr unwraps only LiteralCol arguments of Const parameters (`compile_literals=False`); any other constant "
            f"expression is compiled to SQL, but {len(sites)} implementation sites need the Python value, e.g. "
            f"{ex[0].func.name}@{ex[0].module.rel}: {ex[2]}: `t.s.str.contains(pdt.lit('a') + 'b')` is accepted and then fails with TypeError" if ex else "")  # fmt: skip
+
+
+def _all_args_compiled(chk):
+    """`zip(expr.args, <params>)` silently drops arguments when <params> is shorter.  For variadic operators the declared
+    signature has fewer entries than the call has arguments; only the *matched* signature (`trie.best_match(..)[0]`) has
+    one entry per argument."""
+    n = 0
+    for short, fq in (("backend.sql", "SqlImpl.compile_col_expr"), ("backend.polars", "compile_col_expr")):
+        mod = chk.repo.mod(short)
+        f = mod.func(fq)
+        subj = f.args.args[1].arg if fq.startswith("SqlImpl") else f.args.args[0].arg
+        for node in ast.walk(f):
+            its = []
+            if isinstance(node, (ast.ListComp, ast.GeneratorExp, ast.SetComp, ast.DictComp)):
+                its = [g.iter for g in node.generators]
+            elif isinstance(node, ast.For):
+                its = [node.iter]
+            for it in its:
+                if not (isinstance(it, ast.Call) and dotted(it.func) == "zip" and it.args and norm(it.args[0]) == f"{subj}.args"):
+                    continue
+                n += 1
+                strict = any(k.arg == "strict" and isinstance(k.value, ast.Constant) and k.value.value is True for k in it.keywords)
+                others = it.args[1:]
+
+                def per_argument(e):
+                    t = norm(e)
+                    if "best_match(" in t:
+                        return True
+                    if isinstance(e, ast.Name):
+                        defs = [a.value for a in ast.walk(f) if isinstance(a, ast.Assign) and len(a.targets) == 1 and norm(a.targets[0]) == e.id]
+                        return len(defs) == 1 and per_argument(defs[0])
+                    if isinstance(e, ast.Subscript):
+                        return per_argument(e.value)
+                    return f"{subj}.args" in t
+
+                good = all(per_argument(o) for o in others)
+                chk.ob("R11", mod, it, f"{fq}: {norm(it)[:110]}", good or strict,
+                       f"`{norm(it)[:100]}` pairs the call's arguments with a list that is not one-per-argument: for variadic operators "
+                       "(coalesce, min/max/sum horizontal, is_in, ...) the arguments beyond the declared arity are silently not compiled")  # fmt: skip
+    chk.floor("R11", "zip(expr.args, ..) sites in the dispatchers", n, 1)
